@@ -528,11 +528,17 @@ func scenarios() []hx.Scenario {
 						continue
 					}
 					s := readyScen{issuer: iss, getters: g, ready: rd, ctxCancel: cc}
-					out = append(out, hx.Scenario{
+					sc := hx.Scenario{
 						Name: s.name(), Class: "spiffe/readiness",
-						Opts: mc.Options{Bound: 3, TieCost: 1, MaxSteps: 3000, Horizon: time.Hour, AutoClock: false},
+						Opts: mc.Options{MinBound: 2, Bound: 3, TieCost: 1, MaxSteps: 3000, Horizon: time.Hour, AutoClock: false},
 						Mk:   func() *mc.Exec { return mkReady(s) },
-					})
+					}
+					if g == 2 && rd {
+						// five threads: two preemptions everywhere is thorough-tier work
+						sc.QuickMin, sc.QuickBound = hx.Ptr(1), hx.Ptr(2)
+						sc.Shards = 8
+					}
+					out = append(out, sc)
 				}
 			}
 		}
